@@ -544,8 +544,17 @@ func runHistory(c *run.Ctx, h []attempt, cc configCase, pending int) {
 					if e != nil && !errors.Is(e, mqtt.ErrDown) {
 						c.Violate("request-not-errdown-after-failed-connect", fmt.Sprintf("%s issued during the retry (attempt %d, %s phase) returned %q", ro.a.Req, ro.att, ro.a.Phase, e), detail())
 					}
-					if e == nil && !ro.success {
-						c.Violate("request-succeeded-without-connection", fmt.Sprintf("%s issued during failed attempt %d returned nil", ro.a.Req, ro.att), detail())
+					// (the call is made by a goroutine of its own, which may come to
+					// run only after a later attempt succeeded: success is judged by
+					// interval, as below)
+					served := false
+					for j, sq := range attSeq {
+						if j >= ro.att && sq < ro.call.RetSeq && attSuccess[j] {
+							served = true
+						}
+					}
+					if e == nil && !served {
+						c.Violate("request-succeeded-without-connection", fmt.Sprintf("%s issued during failed attempt %d returned nil at #%d without a connect attempt having succeeded by then", ro.a.Req, ro.att, ro.call.RetSeq), detail())
 					}
 					break
 				}
